@@ -36,6 +36,7 @@ type Explorer struct {
 	timeout               int
 	fbTimeout             int
 	fbCalls, fbCvc5, fbZ3 int
+	recycled              int
 	workers               int
 	maxPaths              int
 	deadline              time.Time
@@ -173,6 +174,18 @@ func (ex *Explorer) done() {
 	ex.mu.Unlock()
 }
 
+// recycleKB is the solver RSS above which a worker replaces its solver process.
+var recycleKB = func() int {
+	if v := os.Getenv("VX_RECYCLE_KB"); v != "" {
+		n := 0
+		fmt.Sscanf(v, "%d", &n)
+		if n > 0 {
+			return n
+		}
+	}
+	return 768 << 10
+}()
+
 func (ex *Explorer) Run() {
 	ex.work = []WorkItem{{}}
 	var wg sync.WaitGroup
@@ -207,11 +220,13 @@ func (ex *Explorer) Run() {
 				}
 				ex.sstats.Time += s.stats.Time
 				ex.fbCalls += s.fbStats.Calls
+				ex.recycled += s.recycled
 				ex.fbCvc5 += s.fbStats.ByCvc5Int
 				ex.fbZ3 += s.fbStats.ByZ3
 				ex.mu.Unlock()
 				s.Close()
 			}()
+			npaths := 0
 			for {
 				it, ok := ex.next()
 				if !ok {
@@ -219,6 +234,9 @@ func (ex *Explorer) Run() {
 				}
 				ex.runPath(s, it)
 				ex.done()
+				if npaths++; npaths%32 == 0 {
+					s.Recycle(recycleKB)
+				}
 				if s.dead {
 					ex.mu.Lock()
 					ex.engineErrs = append(ex.engineErrs, "solver process died")
